@@ -52,16 +52,16 @@ NAMED_CODES = {'FORG0003', 'FORG0004', 'FORG0005'}      # the codes the property
 ALL_GROUPS = {'pos', 'range', 'iter', 'agg', 'cat'}
 TIERS = {
     'quick': [
-        ('pos-u3', dict(MaxDepth=2, MaxLen=4, InitLen=3, UniverseName='u3', GridName='full', Groups={'pos'})),
+        ('pos-u2', dict(MaxDepth=2, MaxLen=4, InitLen=3, UniverseName='u2', GridName='full', Groups={'pos', 'range'})),
         ('vals-u7', dict(MaxDepth=2, MaxLen=4, InitLen=3, UniverseName='u7', GridName='full',
-                         Groups={'range', 'iter', 'agg', 'cat'})),
+                         Groups={'iter', 'agg', 'cat'})),
         ('agg-u9', dict(MaxDepth=2, MaxLen=4, InitLen=2, UniverseName='u9', GridName='full', Groups={'agg'})),
         ('comp-u4-d2', dict(MaxDepth=3, MaxLen=4, InitLen=2, UniverseName='u4', GridName='small', Groups=ALL_GROUPS)),
     ],
     'thorough': [
-        ('pos-u7', dict(MaxDepth=2, MaxLen=4, InitLen=3, UniverseName='u7', GridName='full', Groups={'pos'})),
+        ('pos-u7', dict(MaxDepth=2, MaxLen=4, InitLen=3, UniverseName='u7', GridName='full', Groups={'pos', 'range'})),
         ('vals-u9', dict(MaxDepth=2, MaxLen=4, InitLen=3, UniverseName='u9', GridName='full',
-                         Groups={'range', 'iter', 'agg', 'cat'})),
+                         Groups={'iter', 'agg', 'cat'})),
         ('comp-u4-d2-full', dict(MaxDepth=3, MaxLen=4, InitLen=2, UniverseName='u4', GridName='full', Groups=ALL_GROUPS)),
         ('comp-u3-d3', dict(MaxDepth=4, MaxLen=3, InitLen=1, UniverseName='u3', GridName='small', Groups=ALL_GROUPS)),
     ],
@@ -479,6 +479,8 @@ def worker(job):
             # the secondary spellings are evaluated by one parser version (rotating), the primary by all
             if kind in ('ctor', 'nested-samevar') or (kind == 'lit' and level[s] > 1 and len(spell[s]) > 1):
                 vs = [vs[rot % len(vs)]]
+            elif _G['quick'] and len(vs) == 3:
+                vs = [vs[rot % 2], vs[2]]       # quick: the newest parser and one of the two older ones
             if kind.startswith('nested'):
                 # usable only if it really evaluates to the source value (prefix hygiene, re-checked)
                 okn = nested_ok.get(text)
@@ -551,7 +553,7 @@ def replay_graph(chk: core.Check, name: str, g: tla.Graph, nested_k: int):
                 items = states[s]['st']['s']
                 spell[s] = [('lit', seq_text(items, 'lit'), str(lv), ALLV)]
                 totals['unreached'] += 1
-        _G.update(states=states, edges=edges, spell=spell, level=level)
+        _G.update(states=states, edges=edges, spell=spell, level=level, quick=(chk.tier == 'quick'))
         step = max(50, min(2000, len(edges) // 64 + 1))
         jobs = [(i, min(i + step, len(edges))) for i in range(0, len(edges), step)]
         results = core.pool_map(worker, jobs)
